@@ -189,11 +189,54 @@ def worker_main():
     recipes = json.load(sys.stdin)
     for r in recipes:
         try:
-            d, _ = convert_digest(r)
+            if "plan_case" in r:
+                d = plan_digest(r["plan_case"])
+            else:
+                d, _ = convert_digest(r)
         except Exception as e:
             d = "EXC:" + type(e).__name__
         print("D " + d)
     return 0
+
+
+def prepare_plan(case):
+    import warnings
+    from props import c19
+    from amaranth.hdl import Module, Signal, Cat
+    from amaranth.lib import io as aio
+    plat, ext = c19.make_platform(case["config"])
+    m = Module()
+    sink = []
+    k = 0
+    with warnings.catch_warnings():
+        warnings.simplefilter("ignore")
+        for op in case["steps"]:
+            try:
+                obj = plat.request(op["name"], op["number"], dir="-")
+            except Exception:
+                continue
+            res_desc = next(r for r in case["config"]["resources"] if r["name"] == op["name"] and r["number"] == op["number"])
+            for (path, node, p, n, hops) in c19.leaves(case["config"], res_desc):
+                o = obj
+                for nm in path[1:]:
+                    o = getattr(o, nm)
+                d = {"i": "i", "o": "o", "oe": "o", "io": "io"}[node["dir"]]
+                buf = aio.Buffer(d, o)
+                m.submodules["b%d" % k] = buf
+                k += 1
+                if d != "o":
+                    sink.append(buf.i)
+        out = Signal(name="sink_out")
+        if sink:
+            m.d.comb += out.eq(Cat(*sink).xor())
+        plan = plat.build(m, do_build=False)
+    return plan, ext
+
+
+def plan_digest(case):
+    plan, _ = prepare_plan(dict(case, config=dict(case["config"], default_clk=None)))
+    d = plan.digest()
+    return d.hex() if isinstance(d, bytes) else str(d)
 
 
 def count_implicit(recipe):
@@ -528,33 +571,7 @@ def run_plan(case, res, dig, stats):
     from amaranth.lib import io as aio
 
     def prepare():
-        plat, ext = c19.make_platform(case["config"])
-        m = Module()
-        sink = []
-        k = 0
-        with warnings.catch_warnings():
-            warnings.simplefilter("ignore")
-            for op in case["steps"]:
-                try:
-                    obj = plat.request(op["name"], op["number"], dir="-")
-                except Exception:
-                    continue
-                res_desc = next(r for r in case["config"]["resources"] if r["name"] == op["name"] and r["number"] == op["number"])
-                for (path, node, p, n, hops) in c19.leaves(case["config"], res_desc):
-                    o = obj
-                    for nm in path[1:]:
-                        o = getattr(o, nm)
-                    d = {"i": "i", "o": "o", "oe": "o", "io": "io"}[node["dir"]]
-                    buf = aio.Buffer(d, o)
-                    m.submodules["b%d" % k] = buf
-                    k += 1
-                    if d != "o":
-                        sink.append(buf.i)
-            out = Signal(name="sink_out")
-            if sink:
-                m.d.comb += out.eq(Cat(*sink).xor())
-            plan = plat.build(m, do_build=False)
-        return plan, ext
+        return prepare_plan(dict(case, config=dict(case["config"], default_clk=None)))
 
     plan1, ext = prepare()
     plan2, _ = prepare()
@@ -565,6 +582,20 @@ def run_plan(case, res, dig, stats):
         raise Violation("plan_files_differ", -1, {"files": bad[:5]})
     if plan1.digest() != plan2.digest():
         raise Violation("plan_digest_differs", -1, {})
+    # ... and in a fresh interpreter with another string-hash seed
+    hs = 1 + (case.get("hashseed", 4242) % 99999)
+    env = dict(os.environ, PYTHONHASHSEED=str(hs), PYTHONDONTWRITEBYTECODE="1", PYTHONPATH=REPO + os.pathsep + VERIF)
+    pc = {"config": case["config"], "steps": case["steps"]}
+    pr = subprocess.run([sys.executable, os.path.join(VERIF, "check.py"), "--c09-worker"],
+                        input=json.dumps([{"plan_case": pc}]), capture_output=True, text=True, env=env, timeout=600)
+    ds = [l[2:] for l in pr.stdout.splitlines() if l.startswith("D ")]
+    if pr.returncode != 0 or len(ds) != 1:
+        raise RuntimeError("c09 plan worker failed: %s" % (pr.stdout + pr.stderr)[-600:])
+    mine = plan1.digest()
+    mine = mine.hex() if isinstance(mine, bytes) else str(mine)
+    stats["faults"]["hashseed"] += 1
+    if ds[0] != mine:
+        raise Violation("plan_digest_differs_across_hash_seeds", -1, {"parent": mine[:16], "child": ds[0][:16], "hashseed": hs})
     # archive across a wall-clock jump
     real_time, real_local = time.time, time.localtime
     buf1, buf2 = io.BytesIO(), io.BytesIO()
@@ -657,7 +688,7 @@ def gen_case_i(seed, tier, index):
         return gen_restart(cfg, wl, fl, tier)
     from props import c19
     c = c19.gen_case(seed, tier)
-    return {"kind": "plan", "config": c["config"], "steps": [op for op in c["steps"]]}
+    return {"kind": "plan", "config": c["config"], "steps": [op for op in c["steps"]], "hashseed": fl.randrange(1, 99999)}
 
 
 def gen_case(seed, tier):
